@@ -208,9 +208,94 @@ fn log_files(dir: &str) -> Vec<String> {
 
 /// Which records does a mutation at byte `at` of `file` (or from `at` to the end) damage? Uses
 /// the harness's own bookkeeping of record boundaries.
+/// (offset, width) of the header fields of the entries of a log file, found by walking it the way
+/// replay does (record id; table id, index, page mask of index / ref-count entries; table id,
+/// slot index and size field of value entries; checksum). Stops at the first thing it cannot parse.
+fn log_fields(data: &[u8]) -> Vec<(usize, usize)> {
+	let mut out = Vec::new();
+	let mut pos = 0usize;
+	let n = data.len();
+	let u16at = |p: usize| u16::from_le_bytes([data[p], data[p + 1]]);
+	while pos < n {
+		match data[pos] {
+			1 => {
+				if pos + 9 > n {
+					break
+				}
+				out.push((pos + 1, 8));
+				pos += 9;
+			},
+			2 | 6 => {
+				// index page / ref-count page: table(2) index(8) mask(8) entries
+				if pos + 19 > n {
+					break
+				}
+				out.push((pos + 1, 2));
+				out.push((pos + 3, 8));
+				out.push((pos + 11, 8));
+				let mask = u64::from_le_bytes(data[pos + 11..pos + 19].try_into().unwrap());
+				let each = if data[pos] == 2 { 8 } else { 16 };
+				pos += 19 + mask.count_ones() as usize * each;
+			},
+			3 => {
+				if pos + 11 > n {
+					break
+				}
+				out.push((pos + 1, 2));
+				out.push((pos + 3, 8));
+				let tier = data[pos + 1];
+				let index = u64::from_le_bytes(data[pos + 3..pos + 11].try_into().unwrap());
+				let pl = pos + 11;
+				if index == 0 {
+					pos = pl + 16;
+					continue
+				}
+				if pl + 2 > n {
+					break
+				}
+				out.push((pl, 2));
+				let sz = u16at(pl);
+				let b = [data[pl], data[pl + 1]];
+				pos = if b == [0xff, 0xff] {
+					pl + 2 + 8
+				} else if tier == 255 && (b == [0xfe, 0xff] || b == [0xfd, 0xff] || b == [0xfd, 0x7f]) {
+					pl + 4096
+				} else {
+					pl + 2 + (sz & 0x7fff) as usize
+				};
+			},
+			4 => {
+				if pos + 5 > n {
+					break
+				}
+				out.push((pos + 1, 4));
+				pos += 5;
+			},
+			5 | 7 => {
+				if pos + 3 > n {
+					break
+				}
+				out.push((pos + 1, 2));
+				pos += 3;
+			},
+			_ => break,
+		}
+	}
+	out.retain(|(o, w)| o + w <= n);
+	out
+}
+
+thread_local! {
+	/// Set when a mutation touched the first nine bytes of a file (its place in the replay order).
+	static HEADER_DAMAGED: std::cell::Cell<bool> = std::cell::Cell::new(false);
+}
+
 fn damaged_by(ex: &Exec, file: &str, at: u64, to_end: bool) -> Vec<u64> {
 	// The first nine bytes of a file (type byte + id of its first record) decide where the whole
 	// file is ordered at replay: damage there affects every record in it.
+	if at < 9 && !to_end {
+		HEADER_DAMAGED.with(|c| c.set(true));
+	}
 	let to_end = to_end || at < 9;
 	ex.log_records
 		.iter()
@@ -249,6 +334,7 @@ pub fn logfuzz(ex: &mut Exec, muts: &[LogMutation], adopt: bool) {
 	// file name in the image -> name of the live file whose content it holds
 	let mut origin: std::collections::HashMap<String, String> = files.iter().map(|f| (f.clone(), f.clone())).collect();
 	let mut first_file_lost = false;
+	HEADER_DAMAGED.with(|c| c.set(false));
 	let mut damaged: std::collections::BTreeSet<u64> = Default::default();
 	simdisk::muted(|| {
 		for m in muts {
@@ -326,6 +412,56 @@ pub fn logfuzz(ex: &mut Exec, muts: &[LogMutation], adopt: bool) {
 									note(damaged_by(ex, origin.get(&f).unwrap_or(&f), (at + i) as u64, false));
 								}
 								applied += 1;
+							}
+						}
+					}
+				},
+				LogMutation::Field { file_sel, entry_sel, val_sel, seed } => {
+					if let Some(f) = pick(*file_sel) {
+						let p = format!("{img}/{f}");
+						if let Ok(mut data) = std::fs::read(&p) {
+							let fields = log_fields(&data);
+							if !fields.is_empty() {
+								let (off, width) = fields[*entry_sel as usize % fields.len()];
+								let mut rr = Rng::new(*seed);
+								let old: Vec<u8> = data[off..off + width].to_vec();
+								let mut oldv = [0u8; 8];
+								oldv[..width].copy_from_slice(&old);
+								let oldv = u64::from_le_bytes(oldv);
+								let v: u64 = match (width, *val_sel % 16) {
+									(2, 0) => 0x7fff,
+									(2, 1) => 0xffff,
+									(2, 2) => 0xfffe,
+									(2, 3) => 0xfffd,
+									(2, 4) => 0x7ffd,
+									(2, 5) => 0x8000,
+									(2, 6) => 0,
+									(2, 7) => 0x7ff8,
+									(2, 8) => 0x7ff9,
+									(2, 9) => oldv.wrapping_add(1),
+									(2, 10) => oldv ^ 0x8000,
+									(2, 11) => oldv | 0x00ff,
+									(_, 0) => u64::MAX,
+									(_, 1) => 1 << 63,
+									(_, 2) => 1 << 32,
+									(_, 3) => 1 << 40,
+									(_, 4) => 0,
+									(_, 5) => oldv.wrapping_add(1),
+									(_, 6) => oldv.wrapping_sub(1),
+									(_, 7) => oldv << 8,
+									(_, 8) => oldv | (1 << 56),
+									_ => rr.next(),
+								};
+								let nb = v.to_le_bytes();
+								if nb[..width] != old[..] {
+									data[off..off + width].copy_from_slice(&nb[..width]);
+									let _ = std::fs::write(&p, &data);
+									for i in 0..width {
+										note(damaged_by(ex, origin.get(&f).unwrap_or(&f), (off + i) as u64, false));
+									}
+									applied += 1;
+									ex.stats.probe("logfuzz_field_overwritten");
+								}
 							}
 						}
 					}
@@ -465,7 +601,12 @@ pub fn logfuzz(ex: &mut Exec, muts: &[LogMutation], adopt: bool) {
 			None => false,
 		}
 	};
+	// A damaged leading id moves its file to another place in the replay order: an intact record
+	// that the tables already hold can then be the first one replayed, with the damaged file (an
+	// invalid record in replay order) right behind it.
+	let header_damaged = HEADER_DAMAGED.with(|c| c.replace(false));
 	let rewind_possible = stale ||
+		(header_damaged && present.iter().any(|id| *id <= last_enacted && !damaged.contains(id))) ||
 		(duplicated && first_present.map_or(false, |a| a <= last_enacted)) ||
 		match (x, first_present) {
 			(Some(x), Some(a)) => x > a && x <= last_enacted,
